@@ -2,6 +2,7 @@ import IstioModel.Common.Wire
 import IstioModel.C02.Model
 import IstioModel.C02.Queue
 import IstioModel.C02.Debounce
+import IstioModel.C02.Sender
 
 /-! Line-protocol driver for C02 (stream `merge`; see harness/c02).  Objects are declared by `set`,
     `rsn`, `req` lines (ids are positions in the per-type stores, in declaration order) and then
@@ -51,6 +52,9 @@ structure DState where
   q : QState := {}               -- the queue (its heap field is the authoritative heap of a queue case)
   dopts : DOpts := { after := 0, max := 0, eds := true }
   db : DB := {}                  -- the debounce loop of a `debounce` case
+  snd : Sender := {}             -- the sender system of a `sender` case (its queue's heap is authoritative there)
+  started : Bool := false        -- doSendPushes has been started
+  stream : String := ""
 
 /-- `nil`, `last`, or an index below `n`. -/
 def parseRef (n : Nat) (last : Option Ref) (t : String) : Option (Option Ref) :=
@@ -205,12 +209,77 @@ def stepDebounce (s : DState) (toks : List String) : DState × String :=
      s!"facts={encSet facts} events={f.recvd.length} sent={f.sent} quiescent={boolTok quiet} single=1 batches=1 unmutated=1")
   | _ => stepQueue s toks
 
+/-! ### stream `sender`
+
+The real `doSendPushes` runs by itself; the harness observes it only when it has come to rest
+(loop blocked on the semaphore or in `Dequeue`, or returned; no parked push event with an enabled
+exit).  The model is run to the same point by `settle` after every operation. -/
+
+def sortNat (l : List Nat) : List Nat := l.mergeSort (fun a b => a ≤ b)
+
+def showSender (n : Nat) (s : Sender) : String :=
+  let q := if s.q.queue.isEmpty then "-" else ",".intercalate ((sortNat s.q.queue).map toString)
+  let exited := s.loop == .exitedStop || s.loop == .exitedShutdown
+  s!"tok={s.tokens} exit={boolTok exited} q={q} pend={showCMap n s.q.pending} proc={showCMap n s.q.processing} down={boolTok s.q.down}"
+
+def settleIf (b : Bool) (s : Sender) : Sender := if b then settle 100000 s else s
+
+def applyAll (s : Sender) : List SEv → Sender
+  | [] => s
+  | e :: es => applyAll ((stepS s e).getD s) es
+
+def stepSender (s0 : DState) (toks : List String) : DState × String :=
+  -- the heap of declarations is authoritative until the queue allocates
+  let s : DState := { s0 with snd := { s0.snd with q := { s0.snd.q with heap := s0.heap } } }
+  let fin := fun (x : Sender) => ({ s with snd := x, heap := x.q.heap }, showSender s.nconn x)
+  match toks with
+  | ["start"] =>
+    if s.started then (s, "bad-op") else
+    let x := settle 100000 s.snd
+    ({ s with snd := x, started := true, heap := x.q.heap }, showSender s.nconn x)
+  | ["enq", c, r] =>
+    match parseConn s.nconn c, parseRefDecl s.heap.reqs.length r with
+    | some c, some r =>
+      fin (settleIf s.started ((stepS s.snd (.enq c r)).getD s.snd))
+    | _, _ => (s, "bad-op")
+  | ["deliver", c] =>
+    match parseConn s.nconn c with
+    | some c =>
+      if s.snd.closed c || s.snd.stopped then (s, "bad-op") else
+      match takeFlight c s.snd.parked, stepS s.snd (.deliver c) with
+      | some (f, _), some x => ({ s with snd := x }, s!"ev={showRef "q" f.2} {showSender s.nconn x}")
+      | _, _ => (s, "bad-op")
+    | none => (s, "bad-op")
+  | ["pushdone", c] =>
+    match parseConn s.nconn c with
+    | some c =>
+      match stepS s.snd (.pushDone c) with
+      | some x => fin (settleIf s.started x)
+      | none => (s, "bad-op")
+    | none => (s, "bad-op")
+  | ["close", c] =>
+    match parseConn s.nconn c with
+    | some c => fin (settleIf s.started ((stepS s.snd (.close c)).getD s.snd))
+    | none => (s, "bad-op")
+  | ["stop"] => fin (settleIf s.started ((stepS s.snd .stop).getD s.snd))
+  | ["shut"] => fin (settleIf s.started ((stepS s.snd .shut).getD s.snd))
+  | ["end"] =>
+    -- finish every delivered push, close every client, stop the server, shut the queue down
+    let x1 := settleIf s.started (applyAll s.snd ((sortNat (s.snd.delivered.map (·.1))).map SEv.pushDone))
+    let x2 := settleIf s.started (applyAll x1 ((List.range s.nconn).map SEv.close))
+    let x3 := settleIf s.started (applyAll x2 [.stop])
+    let x4 := settleIf s.started (applyAll x3 [.shut])
+    fin x4
+  | _ => stepMerge s toks
+
 def step (s : DState) (toks : List String) : DState × String :=
   match toks with
   | "case" :: _ :: "queue" :: n :: _ => ({ nconn := n.toNat?.getD 0 }, "ok")
+  | "case" :: _ :: "sender" :: n :: cap :: _ =>
+    ({ nconn := n.toNat?.getD 0, snd := { cap := cap.toNat?.getD 1 }, stream := "sender" }, "ok")
   | "case" :: _ :: "debounce" :: a :: m :: e :: _ =>
     ({ dopts := { after := a.toNat?.getD 0, max := m.toNat?.getD 0, eds := tokBool e } }, "ok")
   | "case" :: _ => ({}, "ok")
-  | _ => stepDebounce s toks
+  | _ => if s.stream == "sender" then stepSender s toks else stepDebounce s toks
 
 end IstioModel.C02
